@@ -254,6 +254,53 @@ Theorem C14_struct_concat_norm : forall s vals t,
 Proof. exact struct_concat_norm. Qed.
 Print Assumptions C14_struct_concat_norm.
 
+(* ================= WrappedWireVector forwarding (the cross family's Coq side) =================
+   A helper that starts with as_wires(instance) sees the instance's concatenated wire (croot); that
+   wire is the msb-first concatenation of the component wires, so ANY helper H on "the components
+   concatenated" is H on the plain wire -- for both construction modes and at every nesting level. *)
+Theorem C14_wrapped_forwarding : forall (A : Type) (H : bits -> A) s t,
+  well_sliced s t -> children s <> [] -> H (inst_view t) = H (as_wires_inst t).
+Proof. exact wrapped_forwarding. Qed.
+Print Assumptions C14_wrapped_forwarding.
+
+Theorem C14_instance_view_slice : forall s v, length v = sbw s -> children s <> [] ->
+  as_wires_inst (slice_comp s v) = v /\ inst_view (slice_comp s v) = v.
+Proof. exact instance_view_slice. Qed.
+Print Assumptions C14_instance_view_slice.
+
+Theorem C14_instance_view_concat : forall s vals t, concat_comp s vals = Some t -> children s <> [] ->
+  as_wires_inst t = concat_msb (norm_vals (children s) vals) /\ inst_view t = as_wires_inst t.
+Proof. exact instance_view_concat. Qed.
+Print Assumptions C14_instance_view_concat.
+
+(* a component reached by any path of component indices is exactly the bit range
+   [lo, lo + width) of the instance's wire (lo = widths of all later siblings along the path)
+   and is itself a sliced instance: a helper on the component = the helper on that plain slice *)
+Theorem C14_component_at_path : forall p s v node lo,
+  length v = sbw s -> path_range s p = Some (node, lo) ->
+  exists t, cpath (slice_comp s v) p = Some t /\
+            croot t = firstn (sbw node) (skipn lo v) /\
+            t = slice_comp node (croot t) /\
+            (lo + sbw node <= sbw s)%nat.
+Proof. exact component_at_path. Qed.
+Print Assumptions C14_component_at_path.
+
+(* ================= shift_* with a Python int amount ================= *)
+Theorem C14_sll_const_spec : forall x k r, (0 <= k)%nat -> sll_const x (Z.of_nat k) = Some r ->
+  (0 < k < length x)%nat /\ r = shift_spec x false true k.
+Proof. exact sll_const_spec. Qed.
+Print Assumptions C14_sll_const_spec.
+
+Theorem C14_srl_const_spec : forall x k r, srl_const x (Z.of_nat k) = Some r ->
+  (k < length x)%nat /\ r = shift_spec x false false k.
+Proof. exact srl_const_spec. Qed.
+Print Assumptions C14_srl_const_spec.
+
+Theorem C14_sra_const_spec : forall x k r, sra_const x (Z.of_nat k) = Some r ->
+  (k < length x)%nat /\ r = shift_spec x (last x false) false k.
+Proof. exact sra_const_spec. Qed.
+Print Assumptions C14_sra_const_spec.
+
 (* ================= no spurious errors: documented uses do not raise ================= *)
 Theorem C14_sparse_mux_ok : forall sel vals dflt,
   (1 <= length sel)%nat -> NoDup (map fst vals) ->
@@ -337,7 +384,17 @@ Proof. vm_compute. split; reflexivity. Qed.
 
 Example C14_example_barrel :
   to_Z (barrel_shifter (of_Z 5 19) [true] true (of_Z 4 2)) = 15 /\
-  to_Z (barrel_shifter (of_Z 5 19) [false] false (of_Z 4 9)) = 0.
+  to_Z (barrel_shifter (of_Z 5 19) [false] false (of_Z 4 9)) = 0 /\
+  option_map to_Z (sll_const (of_Z 5 19) 2) = Some 12 /\ option_map to_Z (srl_const (of_Z 5 19) 1) = Some 9 /\
+  option_map to_Z (sra_const (of_Z 5 19) 1) = Some 25 /\ sll_const (of_Z 5 19) 5 = None.
+Proof. vm_compute. repeat split; reflexivity. Qed.
+
+Example C14_example_path :
+  path_range (SStruct [SLeaf 1; SMatrix (SStruct [SLeaf 1; SLeaf 2]) 2; SLeaf 1]) [1; 0; 1]%nat
+    = Some (SLeaf 2, 4%nat) /\
+  option_map (fun t => to_Z (croot t))
+    (cpath (slice_comp (SStruct [SLeaf 1; SMatrix (SStruct [SLeaf 1; SLeaf 2]) 2; SLeaf 1]) (of_Z 8 (3 * 16))) [1; 0; 1]%nat)
+    = Some 3.
 Proof. vm_compute. split; reflexivity. Qed.
 
 Example C14_example_bitfield :
